@@ -55,12 +55,13 @@ impl TryFrom<&[u8]> for VarSizeInt {
         let mut val = 0u32;
 
         for (idx, &byte) in bytes.iter().enumerate() {
-            val += (byte as u32 & 127) * mult;
-
-            if mult as usize > Self::MAX {
+            // The fifth byte cannot belong to a Variable Byte Integer
+            // (and the multiplier would overflow past it).
+            if idx >= 4 {
                 return Err(ValueExceedesMaximum.into());
             }
 
+            val += (byte as u32 & 127) * mult;
             mult *= 128;
 
             if byte & 128 == 0 {
